@@ -54,3 +54,5 @@ def run(ctx):
     from .. import rules_base as RB
     ctx.rule('R2.B', 'base model: group_tokens keeps the leaf sequence, parent links and cached text; str()/flatten() read the leaves in order', floor=2)
     RB.check_base_model(ctx, 'R2.B', parts=('group_tokens', 'tree'))
+    ctx.rule('R2.S', 'the leaves parse() starts from carry the input text: Lexer.get_tokens interpreted on short texts yields values that add up to the text', floor=1)
+    RL.check_scan_semantics(ctx, 'R2.S', table_agreement=False)
